@@ -653,7 +653,7 @@ func checkHull(c hullCase) (o ev.Outcome) {
 			case math.IsNaN(hb.Lat.Lo) || math.IsNaN(hb.Lat.Hi):
 				o.Err += fmt.Sprintf(" [the hull loop's RectBound has a NaN latitude: %v %v]", hb.Lat.Lo, hb.Lat.Hi)
 				o.Finding = "rect-bound-nan"
-			case m.miss && hasLongEdge(H, true):
+			case m.latEx > 0 && hasLongEdge(H, true) && !nearHemi:
 				o.Err += fmt.Sprintf(" [the hull loop's RectBound %v excludes the point and the loop has an edge longer than 2.6 rad: %v]", hb, m)
 				o.Finding = "bounder-long-edge-lat"
 			}
